@@ -567,6 +567,31 @@ func Harness_C06_crash() {
 	}
 }
 
+// twoTableTxnKinds: the first table adds or deletes name1, the second adds name2.
+func twoTableTxnKinds(st *Stack, name1 string, del1 bool, name2 string) error {
+	hs := hsOf(st.cfg)
+	tr, err := st.NewAddition()
+	if err != nil {
+		return err
+	}
+	defer tr.Close()
+	for i, nm := range []string{name1, name2} {
+		nm := nm
+		ui := tr.nextUpdateIndex
+		r := &RefRecord{RefName: nm, UpdateIndex: ui}
+		if !(i == 0 && del1) {
+			r.Value = hashWith(hs, byte(i+1), 3)
+		}
+		if err := tr.Add(func(w *Writer) error {
+			w.SetLimits(ui, ui)
+			return w.AddRef(r)
+		}); err != nil {
+			return err
+		}
+	}
+	return tr.Commit()
+}
+
 // twoTableTxn adds two tables in one Addition and commits them together.
 func twoTableTxn(st *Stack, name1, name2 string) error {
 	hs := hsOf(st.cfg)
@@ -763,7 +788,7 @@ func Harness_C10_reader() {
 // ---------- C12: API level ----------
 
 // Harness_C12_api: transactions submitted through Add and through multi-table Additions are accepted exactly when the committed live set stays conflict-free.
-// bounds: sequential: a first Add of one name, then either a second Add of one record (add or delete) or a two-table Addition adding two names, names from the menu {a, a/b, a/b/c, a/c, ab, b}; name checking on
+// bounds: sequential: a first Add of one name, then either a second Add of one record (add or delete) or a two-table Addition (first table adds or deletes a name, second adds a name), names from the menu {a, a/b, a/b/c, a/c, ab, b}; name checking on
 // covers: accepted, rejected
 func Harness_C12_api() {
 	cfg := stackCfg(0)
@@ -805,16 +830,23 @@ func Harness_C12_api() {
 			post = append(post, n)
 		}
 	} else {
+		// two tables in one Addition; the first may delete the live ref
 		n1, n2 := nameMenu[VerifChoose(6)], nameMenu[VerifChoose(6)]
+		del1 := VerifChoose(2) == 1
 		if n1 == n2 {
 			return
 		}
-		err = twoTableTxn(st, n1, n2)
+		err = twoTableTxnKinds(st, n1, del1, n2)
 		post = append(post, live...)
-		for _, n := range []string{n1, n2} {
-			if n != live[0] {
-				post = append(post, n)
+		if del1 {
+			if post[0] == n1 {
+				post = nil
 			}
+		} else if live[0] != n1 {
+			post = append(post, n1)
+		}
+		if live[0] != n2 || len(post) == 0 {
+			post = append(post, n2)
 		}
 	}
 	if specNameConflicts(post) {
